@@ -126,6 +126,7 @@ type DgramRec struct {
 	PktState  []int8 // per packet of the datagram: 0 delivered intact, 1 possibly lost (framing of an earlier packet damaged), 2 damaged
 	Pkts      []*TapPacket
 	Hash      uint64
+	Client    string // the client-side address of the datagram (source for dir 0, destination for dir 1)
 }
 
 type wEvent struct {
@@ -173,6 +174,7 @@ type World struct {
 	rebound   bool
 	OnSend    func(rec *DgramRec, data []byte) // oracle hook, called at send time (after tap decode)
 	OnDeliver func(rec *DgramRec, data []byte, damaged bool)
+	OnInject  func(to int, data []byte)
 	bytes     [2]int64 // bytes put on the wire per direction
 	trace     uint64
 	raw       [2][][]byte // the first datagrams of each direction, as put on the wire
@@ -252,7 +254,7 @@ func (w *World) SendPacket(p simnet.Packet) error {
 	if dir == 1 {
 		caddr = to.String()
 	}
-	rec := &DgramRec{Dir: dir, Ord: ord, SentNS: now, Size: len(p.Data), Hash: KHashS(string(p.Data))}
+	rec := &DgramRec{Dir: dir, Ord: ord, SentNS: now, Size: len(p.Data), Hash: KHashS(string(p.Data)), Client: caddr}
 	rec.Pkts = w.Tap.Datagram(dir, ord, caddr, p.Data)
 	w.Log[dir] = append(w.Log[dir], rec)
 	if len(w.raw[dir]) < 256 {
@@ -403,6 +405,9 @@ func (w *World) InjectTo(to int, data []byte) {
 	}
 	if n, ok := w.nodes[pkt.To.String()]; ok {
 		w.Res.Fault("inject")
+		if w.OnInject != nil {
+			w.OnInject(to, data)
+		}
 		w.trace = KMix(w.trace, uint64(w.NowNS()), 99, uint64(to), KHashS(string(data)))
 		n.RecvPacket(pkt)
 	}
